@@ -17,7 +17,8 @@ from typing import Any, Optional, Union
 from collections.abc import Callable, Iterable, Iterator
 from elementpath.protocols import ElementProtocol
 from elementpath.exceptions import xpath_error
-from elementpath.datatypes import UntypedAtomic, AnyURI, AbstractQName
+from elementpath.datatypes import UntypedAtomic, AnyURI, AbstractQName, \
+    AbstractBinary, AbstractDateTime
 from elementpath.collations import UNICODE_CODEPOINT_COLLATION, CollationManager
 from elementpath.xpath_nodes import XPathNode, EtreeElementNode, TextAttributeNode, \
     NamespaceNode, TextNode, CommentNode, ProcessingInstructionNode, EtreeDocumentNode
@@ -423,6 +424,13 @@ def same_key(k1: Any, k2: Any) -> bool:
         return isinstance(k2, float) and math.isnan(k2)
     elif isinstance(k1, AbstractQName) ^ isinstance(k2, AbstractQName):
         return False
+    elif isinstance(k1, AbstractBinary) or isinstance(k2, AbstractBinary):
+        # xs:hexBinary and xs:base64Binary are not comparable with each other
+        return type(k1) is type(k2) and k1 == k2
+    elif isinstance(k1, AbstractDateTime) and isinstance(k2, AbstractDateTime):
+        # both keys have a timezone or neither has: no implicit timezone for keys
+        if (k1.tzinfo is None) is not (k2.tzinfo is None):
+            return False
 
     try:
         return True if k1 == k2 else False
